@@ -258,6 +258,23 @@ func (e *Engine) ResolveTypeWith(s string, pkgPath string, tv map[string]types.T
 		}
 		o := p.Scope().Lookup(tn)
 		if o == nil {
+			// several packages share a name (encoding/json, internal/json): prefer one the contract's package imports
+			if cur := e.TypePkgs[pkgPath]; cur != nil {
+				for _, imp := range cur.Imports() {
+					if imp.Name() == pn {
+						if o2 := imp.Scope().Lookup(tn); o2 != nil {
+							return o2.Type(), nil
+						}
+					}
+				}
+			}
+			for _, k := range sortedKeys(e.TypePkgs) {
+				if q := e.TypePkgs[k]; q.Name() == pn {
+					if o2 := q.Scope().Lookup(tn); o2 != nil {
+						return o2.Type(), nil
+					}
+				}
+			}
 			return nil, fmt.Errorf("unknown type %q", s)
 		}
 		return o.Type(), nil
